@@ -92,6 +92,9 @@ namespace pika::detail {
             // waiting
             if (!cond_.notify_one(std::move(l))) break;
 
+#if defined(PIKA_VERIF)
+            PIKA_VERIF_POINT(805, this);
+#endif
             l = std::unique_lock<mutex_type>(*mtx);
         }
     }
